@@ -123,6 +123,11 @@ def single_return(fn):
     st = [s for s in b.get("s", []) if s.get("k") != "null"] if b.get("k") == "block" else [b]
     if len(st) == 1 and st[0].get("k") == "return" and st[0].get("e") is not None:
         return st[0]["e"]
+    # `assert(cond); return <path>;` is still an accessor: the assert macro expands to an expression statement around __assert_fail
+    if len(st) >= 2 and st[-1].get("k") == "return" and st[-1].get("e") is not None and \
+            all(any(x.get("k") == "call" and x.get("name") in ("__assert_fail", "__assert") for x in walk(p_)) and
+                not any(x.get("k") in ("assign", "decl") for x in walk(p_)) for p_ in st[:-1]):
+        return st[-1]["e"]
     return None
 
 
